@@ -372,6 +372,68 @@ class Universe:
     def enc_keys(self, ks):
         return [self.enc_key(k) for k in ks]
 
+    # -- construction histories: the same final container reached through insertions, deletions,
+    #    re-insertions, OrderedDict.move_to_end, defaultdict auto-insertion, deque rotation at maxlen
+    history = True
+
+    def build_dict(self, d, items):
+        if not self.history or not items:
+            d.update(items)
+            return d
+        mode = len(items) % 3
+        if mode == 0:
+            # junk keys first, deleted later (leaves dummy slots in the hash table)
+            for i in range(3):
+                d[('junk', i)] = None
+            for k, v in items:
+                d[k] = v
+            for i in range(3):
+                del d[('junk', i)]
+        elif mode == 1:
+            # every key inserted early with a placeholder, then deleted and re-inserted in order
+            for k, _ in reversed(items):
+                d[k] = None
+            for k, v in items:
+                del d[k]
+                d[k] = v
+        else:
+            if isinstance(d, defaultdict) and d.default_factory is not None:
+                for k, v in items:
+                    d[k]            # auto-insertion through __missing__
+                    d[k] = v
+            else:
+                d.update(items)
+        return d
+
+    def build_odict(self, items):
+        if not self.history or len(items) < 2:
+            return OrderedDict(items)
+        od = OrderedDict()
+        mode = len(items) % 2
+        if mode == 0:
+            for k, v in reversed(items):
+                od[k] = v
+            for k, _ in items:
+                od.move_to_end(k)               # final order = items order
+        else:
+            for k, v in items[1:] + items[:1]:
+                od[k] = v
+            od.move_to_end(items[0][0], last=False)
+        return od
+
+    def build_deque(self, xs, maxlen):
+        d = deque(xs, maxlen=maxlen)
+        if not self.history or not xs:
+            return d
+        if maxlen is not None and len(d) == maxlen:
+            d.appendleft(d[-1])         # at maxlen: evicts the right end ...
+            d.rotate(-1)                # ... and rotating back restores the order
+        else:
+            d.rotate(1)
+            d.rotate(-1)
+        assert len(d) == len(xs) and all(a is b for a, b in zip(d, xs))
+        return d
+
     # -- trees
     def leaf(self, ty: int, uid: int):
         obj = self.leaf_by_uid.get((ty, uid))
@@ -398,15 +460,17 @@ class Universe:
         if tag == 'l':
             return [self.obj(x) for x in s[1:]]
         if tag == 'D':
-            return {self.key(k): self.obj(v) for k, v in s[1:]}
+            items = [(self.key(k), self.obj(v)) for k, v in s[1:]]
+            return self.build_dict(dict(), items)
         if tag == 'O':
-            return OrderedDict([(self.key(k), self.obj(v)) for k, v in s[1:]])
+            items = [(self.key(k), self.obj(v)) for k, v in s[1:]]
+            return self.build_odict(items)
         if tag == 'DD':
             f = self.optnat(s[1])
-            return defaultdict(None if f is None else FACTORIES[f],
-                               [(self.key(k), self.obj(v)) for k, v in s[2:]])
+            items = [(self.key(k), self.obj(v)) for k, v in s[2:]]
+            return self.build_dict(defaultdict(None if f is None else FACTORIES[f]), items)
         if tag == 'Q':
-            return deque([self.obj(x) for x in s[2:]], maxlen=self.optnat(s[1]))
+            return self.build_deque([self.obj(x) for x in s[2:]], self.optnat(s[1]))
         if tag == 'NT':
             return NT_CLASSES[int(s[1])](*[self.obj(x) for x in s[2:]])
         if tag == 'SS':
